@@ -1,4 +1,5 @@
 (* C18 — a block root always maps to that block's slot.  Property theorems only. *)
+From Coq Require Import Permutation.
 From Verif Require Import Lib.Base Model.C18_Cache Proofs.C18.
 
 (* Every lookup answered with a slot, anywhere in any history (events, hits, misses, failed
@@ -135,6 +136,73 @@ Theorem C18_entry_survives_step :
     get s r = Some (slot_of r) -> get (fst (step s o)) r = Some (slot_of r).
 Proof. exact step_keeps. Qed.
 Print Assumptions C18_entry_survives_step.
+
+(* Writes that overlap the cleaning job.  A group is ANY list of micro-events -- the theorems below
+   quantify over all of them, hence over every interleaving of the goroutines that handle block
+   events, call SetBlockRootToSlot or look roots up with the runs of the cleaning job.
+   A completed write (block event / SetBlockRootToSlot) of a root that none of the cleaning runs
+   AFTER it in the group is entitled to remove is in the map when the group ends, wherever in the
+   group it falls and whatever the other goroutines do ... *)
+Theorem C18_write_during_cleaning_is_kept :
+  forall (slot_of : root -> slot) s pend evs1 r evs2,
+    Inv slot_of s ->
+    Forall (pev_consistent slot_of) (evs1 ++ PEvent r (slot_of r) :: evs2) ->
+    Forall (pev_keeps slot_of r) evs2 ->
+    forall f, let s' := fst (par_run s pend (evs1 ++ PEvent r (slot_of r) :: evs2)) in
+      step s' (Lookup r f) = (s', OSlot (slot_of r)).
+Proof.
+  intros slot_of s pend evs1 r evs2 Hi Hc Hk f. cbn zeta.
+  pose proof (par_run_set_kept slot_of evs1 s pend evs2 r Hi Hc Hk) as H.
+  unfold cached in H. cbn [step]. rewrite H. reflexivity.
+Qed.
+Print Assumptions C18_write_during_cleaning_is_kept.
+
+(* ... so is every root that a lookup of the group was answered a slot for (a hit, or a miss whose
+   fetch succeeded: the miss path stores) ... *)
+Theorem C18_answered_during_cleaning_is_kept :
+  forall (slot_of : root -> slot) s pend evs r i sl,
+    Inv slot_of s -> Forall (pev_consistent slot_of) evs -> Forall (pev_keeps slot_of r) evs ->
+    In (i, r, Some sl) (snd (par_run s pend evs)) ->
+    get (fst (par_run s pend evs)) r = Some (slot_of r).
+Proof. intros slot_of s pend evs r i sl Hi Hc Hk Hin. exact (par_run_answered_kept slot_of evs r s pend Hi Hc Hk i sl Hin). Qed.
+Print Assumptions C18_answered_during_cleaning_is_kept.
+
+(* ... and a root cached before the group is a hit at any moment of it (the node is not asked),
+   as long as the cleaning runs before that moment are not entitled to remove it. *)
+Theorem C18_cached_root_hits_during_cleaning :
+  forall (slot_of : root -> slot) s pend evs1 i r evs2,
+    Inv slot_of s -> get s r = Some (slot_of r) ->
+    Forall (pev_consistent slot_of) evs1 -> Forall (pev_keeps slot_of r) evs1 ->
+    In (i, r, Some (slot_of r)) (snd (par_run s pend (evs1 ++ PBegin i r :: evs2))).
+Proof. intros slot_of s pend evs1 i r evs2 Hi H Hc Hk. exact (par_run_cached_hits slot_of evs1 s pend i r evs2 Hi H Hc Hk). Qed.
+Print Assumptions C18_cached_root_hits_during_cleaning.
+
+(* The order in which the writes and the cleaning runs of a group take effect does not matter: two
+   interleavings of the same micro-events leave the same entry (or none) at every root written by a
+   block event of the group that none of its cleaning runs may remove, and at every root the group
+   does not write (there: what the cleaning runs leave of the entry the group found).  This is why
+   the harness may print the micro-events of a storm -- real goroutines, order unknown -- in one
+   fixed order. *)
+Theorem C18_writes_and_cleaning_runs_commute :
+  forall (slot_of : root -> slot) s pend evs evs' r,
+    Inv slot_of s -> Permutation evs evs' -> Forall (pev_consistent slot_of) evs ->
+    (In (PEvent r (slot_of r)) evs /\ Forall (pev_keeps slot_of r) evs) \/ Forall (fun e => ~ pev_touches r e) evs ->
+    get (fst (par_run s pend evs)) r = get (fst (par_run s pend evs')) r.
+Proof. exact par_run_order_irrelevant. Qed.
+Print Assumptions C18_writes_and_cleaning_runs_commute.
+
+(* Non-vacuity: the cleaning job runs twice at epoch 70 (8 slots per epoch: the window starts at slot
+   48) while roots 5 and 6 are announced, root 7 is fetched on a miss, and root 1 (cached before, slot
+   50) is asked for with the node failing; root 2 (slot 40) is old.  In two different orders. *)
+Example C18_storm_example :
+  let slot_of := fun r => match r with 1 => 50 | 2 => 40 | _ => 100 + r end in
+  let s := fst (run init [Event 1 50; Event 2 40]) in
+  let evs := [PClean 70 8; PEvent 5 105; PBegin 1 7; PEnd 1 7 (Some 107); PClean 70 8; PEvent 6 106; PBegin 2 1; PEnd 2 1 None] in
+  let evs' := [PEvent 6 106; PBegin 2 1; PEvent 5 105; PBegin 1 7; PClean 70 8; PEnd 2 1 None; PEnd 1 7 (Some 107); PClean 70 8] in
+  Forall (pev_consistent slot_of) evs /\
+  par_run s [] evs = ([(6, 106); (7, 107); (5, 105); (1, 50)], [(1, 7, Some 107); (2, 1, Some 50)]) /\
+  par_run s [] evs' = ([(7, 107); (5, 105); (6, 106); (1, 50)], [(2, 1, Some 50); (1, 7, Some 107)]).
+Proof. cbn zeta. split; [repeat constructor | split; vm_compute; reflexivity]. Qed.
 
 (* Non-vacuity: 64 epochs of 2 slots and three slots more, a block in every slot, the cleaning job
    running at the current epoch: the root of the window's first slot is still a hit, the one of the
